@@ -187,17 +187,24 @@ CHECKS = {
         design="DESIGN.md §5 C14"),
     "C07": dict(
         level="model_checking",
-        text="The real election code (start_election wait loops, election_eval, set-primary, join / leave, "
-             "supervisor) runs in the cluster simulator with yield hooks in the wait loops: 2- and 3-node "
-             "clusters, every assignment of start times, start-up through mutual join requests + the initial "
-             "election, then forced elections, death of the primary / a secondary, two simultaneous elections; "
-             "FIFO and seeded random delivery orders with timer ticks only when nothing is deliverable; TLC "
-             "validates each trace against Trace_Cluster group ELECT (termination within the step budget, one "
-             "primary = the longest-running live node, all others secondary, every member map names it).",
-        note="simulated links; NUN_ELECTION_TIMEOUT=10 ms; nodes start together; seeded sampling of schedules, "
-             "no exhaustive exploration of the election protocol",
-        technique="TLA+ reference monitor + TLC trace validation of real election runs under a controlled scheduler",
-        design="DESIGN.md §5 C07"),
+        text="NunElect.tla is an implementation-shaped TLA+ model of the election and membership protocol "
+             "(start_election wait loops, election_eval, set-primary / war, join, leave, end-of-stream handling, "
+             "replication loop by role, pending-operation table, supervisor commands, connections with their "
+             "handshakes). TLC explores established 2- and 3-node clusters x {forced election on each node, death "
+             "of each node, two simultaneous triggers} over every order of deliveries, replies, loop steps and "
+             "timer ticks (invariants: never two primaries, nobody left StartingUp, outcome good or a recorded "
+             "mode, supervisor alive; liveness: every behaviour goes quiet) and start-up through mutual join "
+             "requests by random walks; every complete model behaviour ending in a distinct state is replayed "
+             "step by step on the real nodes in the cluster simulator. Every simulator run (those and the seeded "
+             "FIFO / random ones) is validated by TLC against the model: after every step the real nodes' roles, "
+             "member maps, pending table, queues, connection contents, session tags and parked election threads "
+             "must equal the model's; the outcome at every quiescence is judged on runs that follow the model, "
+             "runs that leave it are judged by the reference monitor Trace_Cluster without any recorded finding.",
+        note="simulated links; NUN_ELECTION_TIMEOUT=10 ms; nodes start together; 3-node start-up and a forced "
+             "election on the youngest of three are sampled by random walks, not exhausted (more than 10^7 states)",
+        technique="explicit TLA+ model of the protocol checked with TLC + replay of TLC-generated schedules on the real "
+                  "code + TLC trace validation of every real run against the model",
+        design="DESIGN.md §A.7, §5 C07"),
     "C05": dict(
         level="model_checking",
         text="In the cluster simulator a secondary is killed and restarted (empty disk / older snapshot / "
